@@ -9,6 +9,7 @@ from __future__ import annotations
 
 import time
 from datetime import date, datetime, timedelta, timezone
+from fractions import Fraction
 from typing import Any, Dict, List, Optional, Sequence, Set, Tuple
 
 from rp2verif import common
@@ -65,6 +66,16 @@ def judge_window(C: Any, specs: Sequence[Dict[str, Any]], U: Dict[str, Any], T: 
             got = [r[:3] for r in got]
         if got != want:
             return f"{table.upper()} rows shown {[r[0] for r in got]} / running sums differ from the rows dated in the window {[r[0] for r in want]}: {got} vs {want}"
+    # sold % of every lot shown = the fractions shown for that lot / the lot's amount (what the reader can add up on the page)
+    lot_amount = {s2["row"]: Fraction(str(s2["crypto_in"])) for s2 in specs if s2["table"] == "in"}
+    sold: Dict[Any, Fraction] = {}
+    for r in W["detail"]:
+        if r["lot"] is not None:
+            sold[r["lot"]] = sold.get(r["lot"], Fraction(0)) + r["amount"]
+    for r in W["in"]:
+        want_pct = sold.get(r[0], Fraction(0)) / lot_amount[r[0]]
+        if abs(r[3] - want_pct) > Fraction(1, 10**20):
+            return f"IN row {r[0]}: sold % {float(r[3])} != fractions shown for this lot / lot amount = {float(want_pct)}"
     want_tax = [r for r in U["taxable"] if in_window(own[r], fd, td)]
     if W["taxable"] != want_tax:
         return f"taxable events shown {W['taxable']} != events dated in the window {want_tax}"
